@@ -1022,6 +1022,12 @@ class CallsMixin:
             # a package function without any contract (an extracted helper): its real body is
             # executed in place (depth-limited; a loop in it still needs a sidecar invariant)
             self.ctx.notes.append(f"callee {key} has no contract: body inlined")
+        from .stmts import ownership_violations
+        bad = ownership_violations(info.node, info.module)
+        if bad:
+            # an inlined body that updates its parameter (or a global) in place would only update
+            # the callee's own binding in this value model
+            raise OutOfSubset(f"inlined callee {key}: ownership: " + "; ".join(bad))
         clo = Closure(info.node, None, info.qualname, info.module)
         return self.inline_expr_closure(clo, bound, st, allow_stmts=True)
 
